@@ -150,7 +150,7 @@ func (e *Engine) mergeable(fn *ssa.Function) bool {
 }
 
 func (e *Engine) callFn(st *State, fn *ssa.Function, args []Value, bind []Value, site ssa.Instruction) []Outcome {
-	if e.stop.Load() {
+	if e.stop.Load() || memStop.Load() {
 		panic(pathEnd{"deadline"})
 	}
 	if h := e.findIntrinsic(fn); h != nil {
